@@ -103,7 +103,7 @@ class Idioms(ast.NodeTransformer):
         torch.cat((a, b), dim=k) / stack          ->  torch.cat([a, b], k)
         f(x, dim=k) / x.m(dim=k) for the usual reductions -> positional k
         torch.where(m, torch.full_like(t, v), t)  ->  t.masked_fill(m, v)
-        torch.where(m, t, torch.zeros_like(t))    ->  t.masked_fill(~m, 0.0)
+        torch.where(m, t, torch.zeros_like(t))    ->  t.masked_fill(~m, 0.0)   (and the mirrored forms)
         a @ b                                     ->  torch.matmul(a, b)"""
 
     def visit_Call(self, node: ast.Call):
@@ -142,6 +142,14 @@ class Idioms(ast.NodeTransformer):
                 if like(a, "full_like") and len(a.args) == 2 and ast.unparse(a.args[0]) == ast.unparse(b):
                     return ast.copy_location(ast.Call(func=ast.Attribute(value=b, attr="masked_fill", ctx=ast.Load()),
                                                       args=[c, a.args[1]], keywords=[]), node)
+                if like(a, "zeros_like") and ast.unparse(a.args[0]) == ast.unparse(b):
+                    # torch.where(m, torch.zeros_like(t), t)  ->  t.masked_fill(m, 0.0)
+                    return ast.copy_location(ast.Call(func=ast.Attribute(value=b, attr="masked_fill", ctx=ast.Load()),
+                                                      args=[c, ast.Constant(value=0.0)], keywords=[]), node)
+                if like(b, "full_like") and len(b.args) == 2 and ast.unparse(b.args[0]) == ast.unparse(a):
+                    # torch.where(m, t, torch.full_like(t, v))  ->  t.masked_fill(~m, v)
+                    return ast.copy_location(ast.Call(func=ast.Attribute(value=a, attr="masked_fill", ctx=ast.Load()),
+                                                      args=[ast.UnaryOp(op=ast.Invert(), operand=c), b.args[1]], keywords=[]), node)
                 if like(b, "zeros_like") and ast.unparse(b.args[0]) == ast.unparse(a):
                     return ast.copy_location(ast.Call(func=ast.Attribute(value=a, attr="masked_fill", ctx=ast.Load()),
                                                       args=[ast.UnaryOp(op=ast.Invert(), operand=c), ast.Constant(value=0.0)],
